@@ -577,3 +577,88 @@ Proof.
     apply chainrep_push_plain; [|reflexivity].
     apply chainrep_insert_mixed; [assumption|]. apply scalar_tok_plain. assumption.
 Qed.
+
+(* `if mixed_mode { parent.mixed = true }` only rewrites the flag of the open container *)
+Lemma flag_update : forall t' p W (m : bool), chainrep t' p -> t' <> [] ->
+  exists t'',
+    (if m then
+       match tget (t' ++ W) p with
+       | Some (TArray e _) => match tset (t' ++ W) p (TArray e true) with Some x => x | None => t' ++ W end
+       | Some (TObject e _) => match tset (t' ++ W) p (TObject e true) with Some x => x | None => t' ++ W end
+       | _ => t' ++ W
+       end
+     else t' ++ W) = t'' ++ W /\ length t'' = length t' /\ chainrep t'' p /\ t'' <> [].
+Proof.
+  intros t' p W m C N. destruct m; [|exists t'; auto].
+  destruct (chainrep_inv _ _ C) as [[-> Cl]|(t0 & p0 & c & V & -> & -> & H0 & N0 & Hc & HV)].
+  - exists t'. split; [|auto]. unfold tget.
+    destruct t' as [|x r]; [congruence|]. cbn [app nth_error].
+    pose proof (closed0_head _ x Cl eq_refl) as Hx.
+    destruct x; cbn in Hx; try discriminate; reflexivity.
+  - rewrite <- app_assoc. cbn [app]. unfold tget.
+    rewrite nth_error_mid, Nat.ltb_irrefl, Nat.eqb_refl.
+    destruct c; cbn in Hc; try discriminate; injection Hc as ->; rewrite tset_mid.
+    + exists (t0 ++ TArray p0 true :: V). split; [rewrite <- app_assoc; reflexivity|].
+      split; [rewrite !app_length; reflexivity|].
+      split; [apply cr_open with (p0 := p0); auto|destruct t0; discriminate].
+    + exists (t0 ++ TObject p0 true :: V). split; [rewrite <- app_assoc; reflexivity|].
+      split; [rewrite !app_length; reflexivity|].
+      split; [apply cr_open with (p0 := p0); auto|destruct t0; discriminate].
+Qed.
+
+Lemma step_SOpen : forall d m p t, inv SOpen p t -> post (2 * length d + 1) (step (mkps d SOpen m p t)).
+Proof.
+  intros d m p t (t' & -> & N & C). step_unfold.
+  destruct (skip_ws_t d) as [d0|] eqn:Hws; [|exact I].
+  destruct (skip_ws_t_len _ _ Hws) as [Nd0 Ld0].
+  destruct d0 as [|c d1]; [congruence|]. cbn [length] in Ld0.
+  assert (Hlen : length (t' ++ [TArray 0 false]) = S (length t')) by (rewrite app_length; cbn [length]; lia).
+  rewrite Hlen.
+  destruct (beq c 125).
+  { destruct (restore (t' ++ [TArray 0 false]) p) as [st' m'] eqn:Hr. rewrite tset_last.
+    assert (C' : chainrep (tpush (t' ++ [TArray (S (length t')) false]) (TEnd (length t'))) p).
+    { unfold tpush. rewrite <- app_assoc. cbn [app]. apply chainrep_app_closed; [exact C|].
+      apply (cl_cont (length t') (TArray (S (length t')) false) [] []).
+      - apply length_nonnil; assumption.
+      - cbn [cont_end length]. f_equal. lia.
+      - apply cl_nil.
+      - apply cl_nil. }
+    apply post_next; [eapply inv_restore; eauto; apply snoc_nonnil|].
+    destruct (restore_cases _ _ _ _ Hr) as [->|[-> _]]; cbn [st_bonus]; lia. }
+  destruct (beq c 91).
+  { destruct m; [exact I|]. apply post_keep_mixed. apply parse_param_post; [cbn [length]; lia|].
+    exists t'. auto. }
+  destruct (beq c 123).
+  { destruct (skip_ws_t d1) as [sc|] eqn:Hws2; [|exact I].
+    destruct (skip_ws_t_len _ _ Hws2) as [Nsc Lsc].
+    rewrite match_b125. destruct sc as [|c2 d3]; [congruence|]. cbn [length] in Lsc.
+    destruct (N.eqb c2 125).
+    - apply post_next; [|cbn [st_bonus]; lia]. cbn [inv]. exists t'. auto.
+    - rewrite tset_last. apply post_next; [|cbn [st_bonus length]; lia].
+      cbn [inv]. split; [|apply snoc_nonnil].
+      apply cr_open with (p0 := p) (V := []); auto. apply cl_nil. }
+  pose proof (scalar_step_spec (c :: d1) c ltac:(discriminate)) as P.
+  destruct (scalar_step (c :: d1) c) as [[tok d']| | | |]; try exact I; try contradiction.
+  destruct P as [Pt Pl]. cbn [length] in Pl.
+  unfold tpush. rewrite <- app_assoc. cbn [app].
+  destruct (flag_update t' p [TArray 0 false; tok] m C N) as (t'' & E & L & C'' & N'').
+  rewrite E. clear E.
+  destruct (skip_ws_t d') as [d2|] eqn:Hws3; [|exact I].
+  destruct (skip_ws_t_len _ _ Hws3) as [Nd2 Ld2].
+  destruct d2 as [|c2 d3]; [congruence|].
+  assert (Hl2 : length (t'' ++ [TArray 0 false; tok]) = S (S (length t''))) by (rewrite app_length; cbn [length]; lia).
+  rewrite Hl2.
+  destruct (Nat.ltb_spec (S (S (length t''))) 2) as [|_]; [lia|].
+  replace (S (S (length t'')) - 2) with (length t'') by lia.
+  rewrite !tset_mid.
+  assert (G : forall X, cont_end X = Some p ->
+     chainrep (t'' ++ [X; tok]) (length t'') /\ exists t1 x, t'' ++ [X; tok] = t1 ++ [x] /\ plainb x = true).
+  { intros X HX. split.
+    - apply cr_open with (p0 := p); auto. apply closed_one_plain. assumption.
+    - exists (t'' ++ [X]), tok. split; [rewrite <- app_assoc; reflexivity|assumption]. }
+  destruct (beq c2 61 || beq c2 62 || beq c2 60).
+  - apply post_next; [|cbn [st_bonus length] in *; lia].
+    cbn [inv]. apply G. reflexivity.
+  - apply post_next; [|cbn [st_bonus length] in *; lia].
+    cbn [inv]. split; [apply G; reflexivity|apply snoc_nonnil || (destruct t''; discriminate)].
+Qed.
